@@ -556,6 +556,12 @@ pub(crate) fn add_float_format<W, R, T>(
 
             rt.can_allocate(specs.min_width())?;
 
+            if s1.is_empty() {
+                // an empty specifier is guaranteed to give the string representation
+                let repr = format!("{:?}", if *f0 == -0.0 { 0.0 } else { *f0 });
+                return Ok(ManagedXValue::new(XValue::String(Box::new(FencedString::from_string(repr))), rt)?.into());
+            }
+
             let mag = f0.abs();
             if specs.ty.alternative{
                 return xerr(ManagedXError::new("no alt type available for float formatting", rt)?);
